@@ -7,6 +7,8 @@ open BinNums
 open Datatypes
 open Base
 open Teletype
+open XmlLex
+open XmlTree
 
 type sx = A of string | L of sx list
 
@@ -84,6 +86,31 @@ let rec tnode_of_sx (x : sx) : tnode =
   | L (A "E" :: k) -> TOther (SL.map tnode_of_sx k)
   | _ -> failwith "tnode_of_sx"
 
+(* xml trees *)
+let sx_of_qname (q : (coq_N list * coq_N list)) : sx = L [sx_of_str (fst q); sx_of_str (snd q)]
+let qname_of_sx = function L [a; b] -> (str_of_sx a, str_of_sx b) | _ -> failwith "qname_of_sx"
+let rec sx_of_node (t : node) : sx =
+  match t with
+  | TextN s -> L [A "T"; sx_of_str s]
+  | CDataN s -> L [A "C"; sx_of_str s]
+  | Elem (q, atts, kids) ->
+      L [A "E"; sx_of_qname q; L (SL.map (fun (aq, v) -> L [sx_of_qname aq; sx_of_str v]) atts); L (SL.map sx_of_node kids)]
+let rec node_of_sx (x : sx) : node =
+  match x with
+  | L [A "T"; s] -> TextN (str_of_sx s)
+  | L [A "C"; s] -> CDataN (str_of_sx s)
+  | L [A "E"; q; L atts; L kids] ->
+      Elem (qname_of_sx q, SL.map (function L [aq; v] -> (qname_of_sx aq, str_of_sx v) | _ -> failwith "att") atts, SL.map node_of_sx kids)
+  | _ -> failwith "node_of_sx"
+let env_of_sx = function L l -> SL.map (function L [a; b] -> (str_of_sx a, str_of_sx b) | _ -> failwith "env") l | _ -> failwith "env"
+let sx_of_tok (t : tok) : sx =
+  let atts a = L (SL.map (fun (n, v) -> L [sx_of_str n; sx_of_str v]) a) in
+  match t with
+  | TkStart (n, a) -> L [A "S"; sx_of_str n; atts a]
+  | TkEmpty (n, a) -> L [A "M"; sx_of_str n; atts a]
+  | TkEnd n -> L [A "N"; sx_of_str n]
+  | TkChars s -> L [A "T"; sx_of_str s]
+
 let dispatch (f : string) (args : sx list) : sx =
   match f, args with
   | "tt_encode", [s] -> L (SL.map sx_of_tnode (Teletype.encode (str_of_sx s)))
@@ -94,6 +121,17 @@ let dispatch (f : string) (args : sx list) : sx =
                 | _ -> failwith "allows") in
       sx_of_result (fun l -> L (SL.map sx_of_tnode l))
         (Teletype.add_text_checked al (list_of_sx tnode_of_sx k) (str_of_sx s))
+  | "xp_text", [s] -> sx_of_str (Inst.i_text_toXml (str_of_sx s))
+  | "xp_attr", [s] -> sx_of_str (Inst.i_quoteattr (str_of_sx s))
+  | "xp_cdata", [s] -> sx_of_str (Inst.i_cdata_toXml (str_of_sx s))
+  | "xp_node", [env; l0; t] -> sx_of_str (Inst.i_node_toXml (env_of_sx env) (bool_of_sx l0) (node_of_sx t))
+  | "xp_open", [env; l0; q; L atts] ->
+      sx_of_str (Inst.i_write_open_tag (env_of_sx env) (bool_of_sx l0) (qname_of_sx q)
+                   (SL.map (function L [aq; v] -> (qname_of_sx aq, str_of_sx v) | _ -> failwith "att") atts))
+  | "xp_close", [env; q] -> sx_of_str (XmlTree.write_close_tag (env_of_sx env) (qname_of_sx q))
+  | "canon", [t] -> sx_of_node (Inst.i_canon (node_of_sx t))
+  | "xml_parse", [s] -> sx_of_opt sx_of_node (Inst.i_xml_parse (str_of_sx s))
+  | "xml_lex", [s] -> sx_of_opt (fun l -> L (SL.map sx_of_tok l)) (Inst.i_lex (str_of_sx s))
   | _ -> failwith ("unknown function " ^ f)
 
 let () =
